@@ -63,6 +63,9 @@ type Pop struct {
 	K         int    `json:"k"`       // maxMissedSchedules
 	DefaultTZ string `json:"defaultTZ,omitempty"`
 	Downtime  int64  `json:"downtime,omitempty"` // maxDowntimeThresholdSeconds (0 = default 300)
+	// ConstructEarlyS: the controller objects are constructed this many seconds before they are
+	// initialised and run (a standby replica waiting for leadership); 0 = back to back.
+	ConstructEarlyS int `json:"constructEarlyS,omitempty"`
 }
 
 // Emission is one EnqueueJobConfig call.
@@ -158,12 +161,16 @@ func NewHarness(p Pop, seed bool) *Harness {
 	}
 	b.Clock.SetTime(h.T0)
 	b.Build = func(b *mc.Base) {
+		if p.ConstructEarlyS > 0 {
+			b.Clock.SetTime(h.T0.Add(-time.Duration(p.ConstructEarlyS) * time.Second))
+		}
 		h.CronCtx = croncontroller.NewContext(b.Ctx)
 		// The worker hands requests to the recorder, nothing uses the controller's own
 		// workqueue here; stop its two background goroutines (one leaked pair per replay).
 		h.CronCtx.VerifQueue().ShutDown()
 		h.Worker = croncontroller.NewCronWorker(h.CronCtx, recorder{h})
 		iw := croncontroller.NewInformerWorker(h.CronCtx, croncontroller.NewUpdateHandler(h.CronCtx))
+		b.Clock.SetTime(h.T0) // elected / started now
 		iw.Init()
 		h.InitErr = h.Worker.Init()
 	}
